@@ -5,7 +5,7 @@
  * the failing draw, the call stack of the failing draw, and whether a secret it holds (master
  * secret, key block, TLS 1.3 IVs, long-term private keys) appeared on its fd 1/2.
  *
- *   hs <tlcp|tls12|tls13> <seed> <client-failat> <server-failat> [auth] [k=<n>:<errno>] [app=<n>]
+ *   hs <tlcp|tls12|tls13> <seed> <client-failat> <server-failat> [auth] [shut] [k=<n>:<errno>] [app=<n>]
  *        auth: the server requests a client certificate;  k=n:E: instead of one plain failure, n attempts at that draw fail with errno E
  *        (destination poisoned) and then the source serves the healthy bytes;  app=n: after the handshake the client sends n records,
  *        the IV draw of record n/2 fails once: all explicit IVs on the wire must be pairwise distinct and none poison
@@ -68,7 +68,7 @@ static int make_pki(opctx_t *c, pki_t *k) {
 	return 1;
 }
 
-typedef struct { int rc, app; long draws; size_t sent, after, cap; char leak[64]; int nbt; void *bt[24]; uint8_t sentdg[32]; int nivs, ivdup, sendfail; long attempts; } report_t;
+typedef struct { int rc, app; long draws; size_t sent, after, cap; char leak[64]; int nbt; void *bt[24]; uint8_t sentdg[32]; int nivs, ivdup, sendfail; long attempts; long hsdraws; int apperr, shut; } report_t;
 
 static int cap_fd = -1, saved1 = -1, saved2 = -1;
 static void cap_begin(void) {
@@ -107,7 +107,7 @@ static void scan_secret(report_t *r, const uint8_t *cap, size_t n, const uint8_t
 	}
 }
 
-static int client_auth; static int fault_k; static int fault_errno; static int app_msgs;   /* options of the current op line */
+static int with_shutdown; static int client_auth; static int fault_k; static int fault_errno; static int app_msgs;   /* options of the current op line */
 static void role(int proto, int is_client, int sock, uint64_t seed, long failat, const pki_t *pki, report_t *r) {
 	TLS_CTX ctx; TLS_CONNECT *conn = malloc(sizeof *conn); uint8_t buf[64]; size_t n = 0, capn, i, nn = 0; uint8_t *cap, *norm; uint8_t pb[32];
 	int suites[1];
@@ -133,7 +133,7 @@ static void role(int proto, int is_client, int sock, uint64_t seed, long failat,
 	ent_clock(1700000000);
 	if (tls_init(conn, &ctx) != 1 || tls_set_socket(conn, sock) != 1) r->rc = -9;
 	else r->rc = tls_do_handshake(conn);
-	r->draws = ent.draws;
+	r->draws = r->hsdraws = ent.draws;
 	if (r->rc == 1 && app_msgs > 0) {
 		/* application phase with an entropy failure in the middle: the client's record IVs before and after must all differ */
 		int m; r->app = 1;
@@ -152,11 +152,19 @@ static void role(int proto, int is_client, int sock, uint64_t seed, long failat,
 			while (tls_recv(conn, buf, sizeof buf, &n) == 1) {}
 		}
 	} else if (r->rc == 1) {
+		/* application data both ways, then close_notify both ways; apperr counts the calls that reported failure */
+		int a, b;
 		if (is_client) {
-			r->app = tls_send(conn, (const uint8_t *)"ping-from-client", 16, &n) == 1 && tls_recv(conn, buf, sizeof buf, &n) == 1 && n == 16 && !memcmp(buf, "pong-from-server", 16);
+			a = tls_send(conn, (const uint8_t *)"ping-from-client", 16, &n); if (a != 1) r->apperr++;
+			b = a == 1 ? tls_recv(conn, buf, sizeof buf, &n) : -1; if (b != 1) r->apperr++;
+			r->app = a == 1 && b == 1 && n == 16 && !memcmp(buf, "pong-from-server", 16);
 		} else {
-			r->app = tls_recv(conn, buf, sizeof buf, &n) == 1 && n == 16 && !memcmp(buf, "ping-from-client", 16) && tls_send(conn, (const uint8_t *)"pong-from-server", 16, &n) == 1;
+			a = tls_recv(conn, buf, sizeof buf, &n); if (a != 1) r->apperr++;
+			r->app = a == 1 && n == 16 && !memcmp(buf, "ping-from-client", 16);
+			b = r->app ? tls_send(conn, (const uint8_t *)"pong-from-server", 16, &n) : -1; if (b != 1) { r->apperr++; r->app = 0; }
 		}
+		if (r->app && with_shutdown) { r->shut = tls_shutdown(conn); if (r->shut != 1) r->apperr++; }
+		r->draws = ent.draws;
 	}
 	shutdown(sock, SHUT_RDWR);
 	r->sent = sent_total; r->after = sent_after; r->attempts = entfault.failed_attempts; sm3_finish(&sent_dg, r->sentdg);
@@ -181,7 +189,7 @@ static void role(int proto, int is_client, int sock, uint64_t seed, long failat,
 }
 static void print_report(const char *who, const report_t *r) {
 	int i;
-	printf("%s rc=%d app=%d draws=%ld sent=%zu after=%zu leak=%s cap=%zu attempts=%ld ivs=%d ivdup=%d sendfail=%d sentdg=", who, r->rc, r->app, r->draws, r->sent, r->after, r->leak, r->cap,
+	printf("%s rc=%d app=%d hsdraws=%ld apperr=%d shut=%d draws=%ld sent=%zu after=%zu leak=%s cap=%zu attempts=%ld ivs=%d ivdup=%d sendfail=%d sentdg=", who, r->rc, r->app, r->hsdraws, r->apperr, r->shut, r->draws, r->sent, r->after, r->leak, r->cap,
 		r->attempts, r->nivs, r->ivdup, r->sendfail);
 	puthex(r->sentdg, 8);
 	printf(" bt=");
@@ -191,10 +199,11 @@ static void print_report(const char *who, const report_t *r) {
 
 static void handle(size_t nw, char **w) {
 	int proto, sv[2], pfd[2]; uint64_t seed; long cf, sf; report_t rc_, rs_; opctx_t *c; pki_t *pki; ssize_t got;
-	if (nw < 5 || nw > 8 || strcmp(w[0], "hs")) { printf("ERR usage"); return; }
-	client_auth = 0; fault_k = 0; fault_errno = -1; app_msgs = 0;
+	if (nw < 5 || nw > 9 || strcmp(w[0], "hs")) { printf("ERR usage"); return; }
+	client_auth = 0; fault_k = 0; fault_errno = -1; app_msgs = 0; with_shutdown = 0;
 	{ size_t a; for (a = 5; a < nw; a++) {
 		if (!strcmp(w[a], "auth")) client_auth = 1;
+		else if (!strcmp(w[a], "shut")) with_shutdown = 1;
 		else if (!strncmp(w[a], "k=", 2)) { char *c = strchr(w[a], ':'); fault_k = atoi(w[a] + 2); fault_errno = c ? errno_of_name(c + 1) : -1; }
 		else if (!strncmp(w[a], "app=", 4)) app_msgs = atoi(w[a] + 4);
 		else { printf("ERR option %s", w[a]); return; } } }
